@@ -315,7 +315,7 @@ fn scaling_case(src: &mut Src, ctx: &mut Ctx) -> Result<(), String> {
     Ok(())
 }
 
-// ---- time scaling: CPU time for an input four times as long -----------------------------------------------------
+// ---- time scaling: CPU time for an input sixteen times as long -----------------------------------------------------
 fn time_text(shape: u64, n: usize) -> String {
     let mut s = String::from("VERSION 5.8 ;\n");
     match shape {
@@ -415,18 +415,18 @@ fn time_text(shape: u64, n: usize) -> String {
 }
 fn time_case(src: &mut Src, ctx: &mut Ctx) -> Result<(), String> {
     let shape = src.u64() % 12;
-    let n = 40_000usize;
-    let (a, b) = (time_text(shape, n), time_text(shape, 4 * n));
+    let n = 10_000usize;
+    let (a, b) = (time_text(shape, n), time_text(shape, 16 * n));
     ctx.nontrivial(hash_of(&shape));
     let what = ["many macros", "many pins in one macro", "many rectangles in one block", "many property pairs in one statement", "many sites", "long comment, long name, long polygon", "many PROPERTY statements in one macro", "many PROPERTY statements in one pin", "many LAYER blocks in one OBS", "many property definitions", "many words of an extension block on one line", "many words of an extension block, one per line"][shape as usize];
     let (pa, pb) = (crate::engine::child::scratch_path("c11.time.a.lef"), crate::engine::child::scratch_path("c11.time.b.lef"));
     std::fs::write(&pa, &a).map_err(|e| e.to_string())?;
     std::fs::write(&pb, &b).map_err(|e| e.to_string())?;
-    let r = alloc::quadruples_badly(|big| LefLibrary::open(if big { &pb } else { &pa }).is_ok());
+    let r = alloc::grows_badly(|big| LefLibrary::open(if big { &pb } else { &pa }).is_ok());
     let _ = std::fs::remove_file(&pa);
     let _ = std::fs::remove_file(&pb);
     let r = r.map_err(|e| format!("reading time grows faster than the input ({}: {} and {} bytes): {}", what, a.len(), b.len(), e))?;
-    ctx.label(&format!("time scaling, {}: x{:.0} CPU time for x4 input", what, (r.1 / r.0.max(1e-6)).round()));
+    ctx.label(&format!("time scaling, {}: x{:.0} CPU time for x16 input", what, (r.1 / r.0.max(1e-6)).round()));
     ctx.sample("time scaling", || format!("{}: {} bytes in {:.1} ms, {} bytes in {:.1} ms of CPU time", what, a.len(), r.0 * 1e3, b.len(), r.1 * 1e3));
     Ok(())
 }
@@ -434,7 +434,7 @@ fn time_case(src: &mut Src, ctx: &mut Ctx) -> Result<(), String> {
 fn run(run: &mut Run) {
     engine::journal::set_hang_ms(30_000);
     run.rule("Base texts: 40 LEF texts rendered from generated libraries (half with lexical variation, a quarter with non-ASCII comments) + the repository's macro.lef. (i) every prefix at every character boundary; (ii) every single-token fault at every token (delete, duplicate, swap, replace by each of 27 keywords/numbers (incl. the extremes of the 96-bit decimal type)/punctuation/unterminated string); (ii-b) floods: each replacement token and 21 short phrases repeated 50 000 times at four places of a base text, read on a 2 MB stack; (iii) proptest-driven insertion of multi-byte, odd-whitespace and delimiter characters anywhere; (iv) token soup of keywords, numbers, names and arbitrary Unicode scalars; allocation scaling. Oracle: LefLibrary::open returns (panics caught; aborts and hangs caught by the supervising process with a CPU limit), also on the error-report path; an Ok library can be written and re-read without a crash. Non-trivial = faulted text differs from its base; distinct by hash of the text.");
-    run.assume("termination = returns before the hang watchdog (30 s in flight) / 20 s CPU in isolation; linear time checked as allocation volume at most doubling when the input doubles and best-of-three thread CPU time growing at most 8-fold (+20 ms) when the input quadruples, on twelve text shapes");
+    run.assume("termination = returns before the hang watchdog (30 s in flight) / 20 s CPU in isolation; linear time checked as allocation volume at most doubling when the input doubles and thread CPU time (best of five / three) growing at most 64-fold (+50 ms) when the input grows 16-fold, a suspicious measurement being repeated up to three times, on twelve text shapes");
     run.min_nontrivial = 1000;
     run.enumerate("prefixes", *prefix_table().last().unwrap(), &prefix_case);
     run.enumerate("token-faults", *fault_table().last().unwrap(), &token_fault_case);
